@@ -605,7 +605,9 @@ fn extract(matches: &ArgMatches) -> Result<(), MlarError> {
         ));
         let mut export: HashMap<&String, FileWriter> = HashMap::new();
         for fname in &iter {
-            if let Some((_file, path)) = create_file(&output_dir, fname)? {
+            // A file which cannot be created (already reported by `create_file`)
+            // is skipped, in order to still extract the other ones
+            if let Ok(Some((_file, path))) = create_file(&output_dir, fname) {
                 export.insert(
                     fname,
                     FileWriter {
@@ -638,7 +640,8 @@ fn extract(matches: &ArgMatches) -> Result<(), MlarError> {
             }
             Ok(Some(subfile)) => subfile,
         };
-        let Some((mut extracted_file, _path)) = create_file(&output_dir, &fname)? else {
+        // Same here, skip the files which cannot be created
+        let Ok(Some((mut extracted_file, _path))) = create_file(&output_dir, &fname) else {
             continue;
         };
 
